@@ -233,7 +233,8 @@ Proof.
   intro H. unfold s_undo_until.
   assert (H1 : SInvP (with_ps st (s_ps st) (LUndoUntil lv :: s_log st)) rem) by (apply sinv_trail; auto; apply (si_nodup _ _ H)).
   destruct (N.eqb lv 0).
-  - apply sinv_trail; auto. reflexivity.
+  - match goal with |- SInvP (with_born ?X _) _ => assert (HX : SInvP X rem) by (apply sinv_trail; auto; reflexivity);
+      destruct HX as [A1 B C D]; constructor; assumption end.
   - apply sinv_pop_above. exact H1.
 Qed.
 
@@ -386,12 +387,12 @@ Qed.
 
 (* ---------- learning ---------- *)
 
-Lemma sinv_add_learnt (st1 : sst) why lits (w : option (lit * lit)) units act ok :
+Lemma sinv_add_learnt (st1 : sst) why lits (w : option (lit * lit)) units act ok born :
   SInv st1 ->
   (forall x, w = Some x -> In (fst x) lits /\ In (snd x) lits /\ fst x <> snd x) ->
   SInv (mkS (s_enc st1) (s_db st1 ++ [mkCl (KLearnt why) lits])
             (match w with Some x => start_watching (s_ps st1) (N.of_nat (length (s_db st1))) x | None => s_ps st1 end)
-            (s_asserts st1) units act (s_start st1) (s_log st1) (s_order st1) ok).
+            (s_asserts st1) units act (s_start st1) (s_log st1) (s_order st1) ok born).
 Proof.
   intros [A1 B C D] Hw. constructor; simpl.
   - exact A1.
@@ -414,7 +415,7 @@ Proof.
   - simpl in H.
     match type of H with
     | context [s_undo_until ?X ?T] =>
-        assert (H2 : SInv X) by (apply (sinv_add_learnt st1 (r_why r) [f] None _ _ _ H1); intros x E; discriminate E);
+        assert (H2 : SInv X) by (apply (sinv_add_learnt st1 (r_why r) [f] None _ _ _ _ H1); intros x E; discriminate E);
         pose proof (sinv_undo_until X [] T H2) as H3
     end.
     match type of H with
@@ -426,7 +427,7 @@ Proof.
     match type of H with
     | context [s_undo_until ?X ?T] =>
         assert (H2 : SInv X);
-        [ apply (sinv_add_learnt st1 (r_why r) (f :: g :: t) (Some (f, last)) _ _ _ H1);
+        [ apply (sinv_add_learnt st1 (r_why r) (f :: g :: t) (Some (f, last)) _ _ _ _ H1);
           intros x E; inversion E; subst x; cbn [fst snd];
           split; [left; reflexivity | split; [apply in_rev; rewrite Er; left; reflexivity
                  | intro E'; subst; rewrite lit_eqb_refl in Efl; discriminate]]
@@ -536,7 +537,7 @@ Theorem solve_inv fuel efuel a0 order o st :
   solve U P a_ge a_conflict fuel efuel a0 order = (o, st) -> SInv st.
 Proof.
   unfold solve.
-  set (st0 := mkS (estate0 cache0) [mkCl KRoot [(VRoot, true)]] ps0 [] [] a0 0 [] order true).
+  set (st0 := mkS (estate0 cache0) [mkCl KRoot [(VRoot, true)]] ps0 [] [] a0 0 [] order true []).
   assert (H0 : SInv st0).
   { constructor; simpl; [apply einv0 | reflexivity | apply winv0 | reflexivity]. }
   pose proof (sinv_run_sat fuel efuel st0 None H0) as H1.
